@@ -138,36 +138,40 @@ example : DeclaresInRoot w3 := by
 
 /-- **C05 (sections_preserved, partial)**: a section of a foreign part, as expat delivers it — `kids` canonical
     (character data merged, no empty text) — is loaded EXACTLY: element for element, attribute for attribute,
-    character for character, white-space-only text included; and what `save` then writes for it is parsed back to the
-    same forest (`canonTF [] kids = kids`).
+    character for character, white-space-only text included, whatever elements it contains (an inline office:document
+    with its own office:body … included, since repair e0e65e8); and what `save` then writes for it is parsed back to
+    the same forest (`canonTF [] kids = kids`).
     Hypotheses, each a decidable property of the source: the parser is idle and the section still empty (first
-    occurrence); the section element is routed (`route`: office:font-face-decls only in styles.xml —
-    `finding_content_fonts_skipped`); `kids` has at least one element child (else its text is dropped), contains no
-    nested section element (`finding_nested_section`), registers only fresh style names (no rename: C11), and no
-    string of it holds a code point the writer filters (`huF kids = kids`: KF-C02-1).
+    occurrence); the element is a section element (`secOfTrigger`: all eight, office:font-face-decls from every part
+    since repair b40b9f8); `kids` has at least one element child (else its text is dropped), registers only fresh
+    style names (no rename: C11), no string of it holds a code point the writer filters (`huF kids = kids`: KF-C02-1);
+    no further condition for office:font-face-decls (declared font names are taken when the section starts: empty
+    here, so every declaration of this part is kept, repeats included; the second part: `font_section_second_part`).
     Not in the model: attribute converters (values must be fixed points: C15), expat itself. -/
 theorem sections_preserved_partial (st : St) (q : QName) (a : List (QName × Str)) (kids : Forest) (s : Sec)
-    (hi : Idle st) (hf : st.fix = []) (hempty : st.doc.get s = .nil) (hr : route st.stylesPart q = some s)
-    (hnt : noTrigF kids = true) (hfr : fresh st.names (regF (some (qOfSec s)) kids) = true)
+    (hi : Idle st) (hf : st.fix = []) (hempty : st.doc.get s = .nil) (hr : secOfTrigger q = some s)
+    (hfr : fresh st.names (regAllF (some (qOfSec s)) kids) = true)
     (hc : canonB kids = true) (he : hasElemF kids = true) (hh : huF kids = kids) :
     ∃ st', run st (evN (.elem q a kids)) = some st' ∧ st'.doc.get s = kids ∧ canonTF [] (st'.doc.get s) = kids ∧
       st'.doc.sattrs s = putAttrs (st.doc.sattrs s) a ∧ Idle st' ∧ st'.fix = [] := by
   have hg : (st.doc.putAttrs s a).get s = st.doc.get s := by cases s <;> rfl
-  refine ⟨afterSection st s a kids, run_section st q a kids s hi hf hr hnt hfr, ?_, ?_, ?_,
+  have hk : keepS st.doc s kids = kids := by
+    cases s <;> first | rfl | (simp only [Doc.get] at hempty; simp [keepS, hempty, declaredNames, fontDrop_nil_decl])
+  refine ⟨afterSection st s a kids, run_section st q a kids s hi hf hr (by rw [hk]; exact hfr), ?_, ?_, ?_,
     afterSection_idle st s a kids hi, by simpa [afterSection] using hf⟩
-  · simp [afterSection, hg, hempty, secContent, he, mergeTF_canon_id kids hc]
-  · simp only [afterSection, Doc.get_app_same, hg, hempty, appF_nil_left, secContent, he, if_true,
+  · simp [afterSection, hk, hg, hempty, secContent, he, mergeTF_canon_id kids hc]
+  · simp only [afterSection, hk, Doc.get_app_same, hg, hempty, appF_nil_left, secContent, he, if_true,
       mergeTF_canon_id kids hc]
     rw [canonTF_eq_merge, hh, mergeTF_canon_id kids hc]
   · cases s <;> simp [afterSection, Doc.app, Doc.set, Doc.putAttrs]
 
 /-- the other sections are not touched by it -/
 theorem other_sections_untouched (st : St) (q : QName) (a : List (QName × Str)) (kids : Forest) (s s' : Sec)
-    (hi : Idle st) (hf : st.fix = []) (hr : route st.stylesPart q = some s) (hnt : noTrigF kids = true)
-    (hfr : fresh st.names (regF (some (qOfSec s)) kids) = true) (hne : s' ≠ s) :
+    (hi : Idle st) (hf : st.fix = []) (hr : secOfTrigger q = some s)
+    (hfr : fresh st.names (regAllF (some (qOfSec s)) (keepS st.doc s kids)) = true) (hne : s' ≠ s) :
     ∃ st', run st (evN (.elem q a kids)) = some st' ∧ st'.doc.get s' = st.doc.get s' := by
   have hg : (st.doc.putAttrs s a).get s' = st.doc.get s' := by cases s' <;> rfl
-  exact ⟨afterSection st s a kids, run_section st q a kids s hi hf hr hnt hfr,
+  exact ⟨afterSection st s a kids, run_section st q a kids s hi hf hr hfr,
     by simp [afterSection, Doc.get_app_other _ _ _ _ hne, hg]⟩
 
 theorem setA_fresh (k : QName) (v : Str) : (cur : List (QName × Str)) → k ∉ cur.map (·.1) → setA k v cur = cur ++ [(k, v)]
@@ -193,16 +197,31 @@ theorem putAttrs_fresh : (a cur : List (QName × Str)) → ((cur ++ a).map (·.1
 theorem section_attributes_kept (a : List (QName × Str)) (h : (a.map (·.1)).Nodup) : putAttrs [] a = a := by
   simpa using putAttrs_fresh a [] (by simpa using h)
 
-/-- content.xml `<office:font-face-decls><u:f/></office:font-face-decls><office:body><u:a/></office:body>` -/
-def contentWithFonts : Node :=
-  .elem qDocContent [] (.cons (.elem qFontFace [] (.cons (exE 102) .nil)) (.cons (.elem qBody [] (.cons (exE 97) .nil)) .nil))
+/-- **office:font-face-decls of the part read second** (styles.xml after content.xml), exact statement: the fonts whose
+    style:name the first part declared are skipped, the others are appended.  So the font declarations of a foreign
+    package are preserved exactly when the two parts AGREE on every name both declare (then nothing that is skipped is
+    lost); two different fonts under one name in the two parts lose the second (KF-C05-18, `finding_font_name_clash`). -/
+theorem font_section_second_part (st : St) (q : QName) (a : List (QName × Str)) (kids : Forest)
+    (hi : Idle st) (hf : st.fix = []) (hr : secOfTrigger q = some .fontFace)
+    (hfr : fresh st.names (regAllF (some qFontFace) (fontDrop (declaredNames st.doc.fontFace) kids)) = true) :
+    ∃ st', run st (evN (.elem q a kids)) = some st' ∧
+      st'.doc.fontFace = appF st.doc.fontFace (secContent (fontDrop (declaredNames st.doc.fontFace) kids)) :=
+  ⟨afterSection st .fontFace a kids, run_section st q a kids .fontFace hi hf hr (by simpa [keepS, qOfSec] using hfr),
+    by simp [afterSection, keepS, Doc.app, Doc.set, Doc.get, Doc.putAttrs]⟩
 
-/-- **known finding KF-C05-3, proved**: a font declared in content.xml is skipped (the same element in styles.xml
-    is kept — `finding_subdocument_fonts`), whatever the document held before. -/
-theorem finding_content_fonts_skipped :
-    route (stylesPartOf sContentXml) qFontFace = none ∧
-    (loadPart (stylesPartOf sContentXml) {} (evN contentWithFonts)).map
-      (fun l => (topNames l.doc.fontFace, topNames l.doc.body)) = some ([], [exQ 97]) := by decide
+/-- (was known finding KF-C05-3, repaired in b40b9f8) a font declared in content.xml is loaded; `fonts_loaded_once`
+    (Props/C04.lean) shows content only / a sub-document's styles.xml / both parts, with a name repeated inside the part. -/
+theorem content_fonts_loaded :
+    (loadPart (stylesPartOf sContentXml) {} (evN fontsPart)).map (fun l => declaredNames l.doc.fontFace) =
+      some [some [70], some [70], some [71]] := fonts_loaded_once.2.1
+
+/-- **known finding KF-C05-18, proved**: the part read first declared the font name "F"; the part read second declares
+    "F" with other content and "G": its "F" is dropped whatever it says, "G" is kept. -/
+theorem finding_font_name_clash :
+    fontDrop [some [70]] (.cons (.elem qFontFaceEl [(aStyleName, [70]), (aTextStyleName, [50])] .nil)
+                           (.cons (.elem qFontFaceEl [(aStyleName, [71])] .nil) .nil)) =
+      .cons (.elem qFontFaceEl [(aStyleName, [71])] .nil) .nil := by
+  simp [fontDrop, lookupA, aStyleName, aTextStyleName]
 
 /-! ### opaque manifest members
 
